@@ -145,9 +145,15 @@ static void mode_c0506(const Args &a, bool c06) {
                 co.tag("k0_call");
                 continue;
             }
-            std::list<std::list<E>> cycles; double ret = 0; std::string exc;
-            try { ret = run_approx<double>(v, g, w, k, cycles); } catch (std::exception &e) { exc = e.what(); } catch (std::runtime_error *e) { exc = e->what(); delete e; } catch (...) { exc = "unknown"; }
+            std::list<std::list<E>> cycles; double ret = 0; std::string exc, sink_err;
+            bool positional = (mix(canon_hash(s), v * 31 + k) % 10) < 4;   // the output iterator is a template parameter: also a positional one
+            try {
+                if (positional) { SlotSink<std::list<E>> sink((size_t) dim + 4); ret = run_approx_it<double>(v, g, w, k, sink.begin()); sink_err = sink.collect((size_t) dim, cycles); }
+                else ret = run_approx<double>(v, g, w, k, cycles);
+            } catch (std::exception &e) { exc = e.what(); } catch (std::runtime_error *e) { exc = e->what(); delete e; } catch (...) { exc = "unknown"; }
             if (!exc.empty()) { co.viol(std::string(approx_names[v]) + ":exception", exc, cj, spec_text(s)); continue; }
+            if (positional) co.tag("sink:positional");
+            if (!sink_err.empty()) { if (!c06) co.viol(std::string(approx_names[v]) + ":output_iterator_misuse", "through a positional output iterator: " + sink_err, cj, spec_text(s)); else co.tag("invalid_basis_skipped(C05)"); continue; }
             if (deref) { // C07 probe: use every returned descriptor with the caller's map after the call returned
                 volatile double sink = 0; for (auto &c : cycles) for (auto &e : c) sink = sink + w[e]; (void) sink;
             }
